@@ -276,8 +276,16 @@ def judge_terms(rep: Report, fi: FuncInfo, what: str, got, want: set, node=None,
     if interp is not None and interp.overflow or "?" in got:
         rep.undecided("PROVENANCE", fi, what, f"term too large / unknown: {sorted(got)[:3]}", node=node)
         return
+    import re as _re
+
+    vocab = {m_ for t_ in want for m_ in _re.findall(r"([A-Za-z_\u03c6][\w.]*)\(", t_)}
+    alien = sorted({m_ for t_ in got for m_ in _re.findall(r"([A-Za-z_\u03c6][\w.]*)\(", t_)} - vocab)
     if got == want:
         rep.ok("PROVENANCE", fi, f"{what} = {' | '.join(sorted(got))}", "stages applied once each, in the declared order", node=node)
+    elif alien:
+        # the term contains applications the analysis could not identify with a declared stage (a stage fetched through a
+        # variable, a loop join): no verdict rather than a composition mismatch
+        rep.undecided("PROVENANCE", fi, what, f"the returned term applies {alien}, which the analysis cannot identify with a declared stage: {sorted(got)[:2]}", node=node)
     else:
         rep.violation("PROVENANCE", fi, f"{what} = {' | '.join(sorted(got)) or '(no stage applied)'}", f"declared composition: {' | '.join(sorted(want))}", node=node)
 
